@@ -14,6 +14,15 @@ namespace Proofs.ResolverStatic
 open Martian.Dataflow Martian.Resolver Martian.ResolverForks Martian.ResolverStatic Proofs.Dataflow
   Proofs.ResolverForks
 
+/-- narrowing at a type without array / map levels does not change whether a value is `true` -/
+theorem isTrue_narrow0 {st : StructTable} {F : Nat} (hF : NarrowFix st F) (b : String) (v : J) :
+    Martian.Dataflow.isTrue (narrow st F ⟨b, 0, 0⟩ v) = Martian.Dataflow.isTrue v := by
+  rw [hF]
+  simp only [atBase, mapArr, narrowBase]
+  cases st.lookup b with
+  | none => rfl
+  | some ps => cases v <;> simp [Martian.Dataflow.isTrue]
+
 section evalR
 variable (st : StructTable) (hst : StructsOk st) (F : Nat) (hF : NarrowFix st F) (ρ : Store)
 include hst hF
@@ -82,8 +91,25 @@ theorem evalRT_eq_narrow_evalR :
     simp only [evalRT, evalR]
     rw [evalRT_eq_narrow_evalR e ⟨b, m, a + 1⟩ f h, elemArr_narrow hF]
   | .split _ true _, _, _, h => by simp [HasTyR] at h
-  | .merge _ _ _, _, _, h => by simp [HasTyR] at h
-  | .disabled _ _, _, _, h => by simp [HasTyR] at h
+  | .merge c false e, t, f, h => by
+    obtain ⟨b, m, a⟩ := t
+    simp only [HasTyR] at h
+    cases a with
+    | zero => exact absurd rfl h.1
+    | succ n =>
+      simp only [evalRT, evalR, Nat.add_sub_cancel, narrow_arr hF, List.map_map]
+      congr 1
+      apply List.map_congr_left
+      intro ix _
+      exact evalRT_eq_narrow_evalR e ⟨b, m, n⟩ (fset f c ix) h.2.2
+  | .merge _ true _, _, _, h => by simp [HasTyR] at h
+  | .disabled d v, t, f, h => by
+    simp only [HasTyR] at h
+    simp only [evalRT, evalR]
+    rw [evalRT_eq_narrow_evalR d _ f h.1, isTrue_narrow0 hF]
+    split
+    · exact (narrow_null hF t).symm
+    · exact evalRT_eq_narrow_evalR v t f h.2
   | .fork c ix e, t, f, h => by
     simp only [HasTyR] at h
     simp only [evalRT, evalR]
